@@ -107,6 +107,8 @@ func StdEnv() []EnvVal {
 		{"pat", StdPatient(), "resource"},
 		{"long", longStrings(), "multi"},
 		{"fprims", system.Collection{&dtpb.String{Value: "a"}, &dtpb.Code{Value: "b"}, &dtpb.Integer{Value: 1}, &dtpb.String{Value: "a"}, &dtpb.Boolean{Value: true}, &dtpb.Decimal{Value: "1.0"}}, "multi"},
+		{"fdbadtz", &dtpb.Date{ValueUs: 1577836800000000, Timezone: "Mars/Olympus", Precision: dtpb.Date_DAY}, "elem-prim"},
+		{"idxc", system.Collection{system.Integer(1)}, "multi"},
 		{"nilc", system.Collection(nil), "empty"},
 		{"sparec", make(system.Collection, 0, 4), "empty"}, // no items, spare capacity (pre-sized or re-sliced by the caller)
 		{"spare3", append(make(system.Collection, 0, 8), system.String("a"), system.String("b"), system.String("c")), "multi"},
@@ -142,20 +144,20 @@ var (
 	IntSrcs = []string{"0", "1", "-1", "2", "-2", "3", "7", "10", "50", "(-10)", "700", "(-745)", "40000000", "46340", "46341", "-46341", "65536", "2147483646", "2147483647", "-2147483647", "(-2147483647 - 1)", "%minint", "%fint", "%fminint", "%fpos", "%funs", "%fbig"}
 	DecSrcs = []string{"0.0", "0.00", "1.0", "1.00", "-1.0", "0.5", "1.5", "2.5", "-0.5", "-2.5", "3.14159", "0.1", "100.0",
 		"1000000000000000000000000000000.0", "0.000000000000000000000000000001", "99999999999.9", "-99999999999.9",
-		"12345678901234567890.123456789", "2147483647.5", "2147483648.0", "-2147483648.5", "%fdec",
+		"12345678901234567890.123456789", "2147483647.5", "2147483648.0", "-2147483648.5", "%fdec", "%dnoval",
 		// beyond the float64 range in both directions (functions that go through float64 must not fail on them)
 		"1" + strings.Repeat("0", 320) + ".0", "-1" + strings.Repeat("0", 320) + ".0", "0." + strings.Repeat("0", 330) + "1"}
 	StrSrcs = []string{"''", "'abc'", "'a'", "'é'", "'h€llo😀'", "'é'", "'a\\'b'", "' 1'", "'1'", "'+1'", "'-1'", "'1.0'", "'1e3'", "'abc1'", "'true'", "'yes'", "'T'",
 		"'2020'", "'2020-01-01'", "'2020-13-01'", "'2020-01-01T10:00:00Z'", "'@2020'", "'T10:00'", "'10:00'", "'24:00'", "'25:00'", "'5 \\'mg\\''", "'5'", "'5 days'", "'1 \\'wk\\''", "'5 mg'", "'(['", "'a.b'", "'\\u123'", "'ab\\u00e'", "'\\u00g'", "'\\u'", "'\\u1'", "'\\x'", "'a\\'", "'\\u12345'", "'5\\t mg'", "'1.5\\r days'", "'5 \\'m g\\''", "'5\\n\\'mg\\''", "'5\\t'", "'\\t5'",
 		"%fstr", "%fstrn", "%fcode", "%fenum", "%furi", "%fb64"}
 	BoolSrcs = []string{"true", "false", "%fbool"}
-	DateSrcs = []string{"@2020", "@2020-02", "@2020-02-29", "@2021-02-28", "@2020-12-31", "@0001-01-01", "@9999-12-31", "@2020-01", "%fdate", "(@9999-12-31 + 1 day)", "(@0001-01-01 - 2 years)"}
+	DateSrcs = []string{"%fdbadtz", "@2020", "@2020-02", "@2020-02-29", "@2021-02-28", "@2020-12-31", "@0001-01-01", "@9999-12-31", "@2020-01", "%fdate", "(@9999-12-31 + 1 day)", "(@0001-01-01 - 2 years)"}
 	DTSrcs   = []string{"@2020T", "@2020-02T", "@2020-02-29T", "@2020-02-29T10", "@2020-02-29T10:30", "@2020-02-29T10:30:45", "@2020-02-29T10:30:45.123",
 		"@2020-02-29T10:30:45Z", "@2020-02-29T10:30:45+05:30", "@2020-02-29T10:30:45.123-11:00", "@2020-02-29T10Z", "@2020-02-29T10:30+05:30",
 		"@0001-01-01T00:00:00Z", "@9999-12-31T23:59:59.999Z", "@2020-03-01T00:00:00+14:00", "%fdt", "%fdtday", "%finst", "(@9999-12-31T23:59:59Z + 2 seconds)", "(@0001-01-01T00:00:00Z - 1 day)", "%fdtnp", "%fdnp", "%finp"}
 	TimeSrcs = []string{"@T10", "@T10:30", "@T10:30:45", "@T10:30:45.123", "@T10:30:45.5", "@T00:00", "@T23:59:59.999", "@T23:30", "@T08", "%ftime", "(@T01:00 - 2 hours)", "(@T23:00 + 2 hours)", "(@T10:00 + 8784 hours)", "(@T00:00:00.000 - 1 millisecond)"}
 	QtySrcs  = []string{"0 'mg'", "1 'mg'", "1.5 'kg'", "5 'mg'", "1 year", "2 years", "1 month", "13 months", "1 week", "3 weeks", "1 day", "365 days", "1 hour", "25 hours", "90 minutes", "1 second", "1.5 seconds",
-		"1 millisecond", "1000 milliseconds", "1 'wk'", "1 'a'", "1 'mo'", "1 'd'", "1 'h'", "1 'min'", "1 's'", "1 'ms'", "1 '1'", "5.5 'mg'", "-(1 day)", "-(1 'mg')", "2147483648 days", "99999999999 years", "%fqty"}
+		"1 millisecond", "1000 milliseconds", "1 'wk'", "1 'a'", "1 'mo'", "1 'd'", "1 'h'", "1 'min'", "1 's'", "1 'ms'", "1 '1'", "5.5 'mg'", "-(1 day)", "-(1 'mg')", "2147483648 days", "99999999999 years", "%fqty", "%qnoval"}
 	EmptySrcs   = []string{"{}", "%emptyc", "%nilc", "%sparec", "Patient.photo", "Patient.name.suffix"}
 	MultiSrcs   = []string{"%multi", "%multis", "%multib", "%names", "Patient.name", "Patient.name.given"}
 	ComplexSrcs = []string{"%name", "%coding", "%period", "%ref", "%ext", "%pat", "Patient.name[0]", "Patient", "Patient.contact[0]", "Patient.managingOrganization", "Patient.deceased", "Patient.multipleBirth"}
